@@ -72,48 +72,220 @@ def _decisions(fi):
     return rets, raises, tests
 
 
+class _PS(BaseState):
+    """A path: the literals decided so far and local single assignments."""
+
+    def __init__(self, lits=frozenset(), env=()):
+        self.lits = lits
+        self.env = env          # tuple of (name, text)
+
+    def key(self):
+        return (self.lits, self.env)
+
+    def copy(self):
+        n = _PS(self.lits, self.env)
+        n.trace = self.trace
+        return n
+
+
+class _DecisionDomain(Domain):
+    """Symbolic path enumeration of a tag reader in block-tag mode.  Every
+    leaf test is an atom (its normalised text, with syntax-specific
+    spellings of "this is an end tag" mapped to END); the lookup of the
+    command table may raise KeyError (atom NOTAG)."""
+
+    def __init__(self, fi):
+        self.fi = fi
+        self.outcomes = []
+
+    def canon(self, e, st):
+        t = norm(e)
+        for name, text in st.env:
+            pass
+        if t in ("fmt == ']'", 'end'):
+            return 'END', True
+        if t in ("fmt != ']'", 'not end'):
+            return 'END', False
+        return t, True
+
+    def branch(self, test, st):
+        t = norm(test)
+        # EPFS: every test of the format suffix is evaluated for the two
+        # suffixes that have an SGML counterpart: ']' (end tag, atom END)
+        # and '[' (block tag); the insertion form has none
+        if isinstance(test, ast.Compare) and len(test.ops) == 1 and \
+                isinstance(test.left, ast.Name) and test.left.id == 'fmt':
+            c = test.comparators[0]
+            vals = None
+            if isinstance(c, ast.Constant) and isinstance(c.value, str):
+                vals = c.value
+            elif isinstance(c, (ast.Tuple, ast.List, ast.Set)) and all(
+                    isinstance(x, ast.Constant) for x in c.elts):
+                vals = [x.value for x in c.elts]
+            if vals is not None:
+                have = dict(st.lits)
+                out = []
+                for end in ([have['END']] if 'END' in have
+                            else [True, False]):
+                    ns = st.copy()
+                    ns.lits = st.lits | {('END', end)}
+                    fmt = ']' if end else '['
+                    op = test.ops[0]
+                    res = {ast.Eq: fmt == vals, ast.NotEq: fmt != vals,
+                           ast.In: fmt in vals,
+                           ast.NotIn: fmt not in vals}.get(type(op))
+                    if res is None:
+                        return [(True, st), (False, st)]
+                    out.append((res, ns))
+                return out
+        atom, pos = self.canon(test, st)
+        have = dict(st.lits)
+        if atom in have:
+            return [(have[atom] == pos, st)]
+        out = []
+        for v in (True, False):
+            ns = st.copy()
+            ns.lits = st.lits | {(atom, v)}
+            out.append((v == pos, ns))
+        return out
+
+    def raises(self, node, st):
+        return []
+
+    def _text(self, e, st):
+        t = norm(e)
+        env = dict(st.env)
+        if isinstance(e, ast.Tuple):
+            return ', '.join(self._text(x, st) for x in e.elts)
+        if isinstance(e, ast.Name) and e.id in env:
+            return env[e.id]
+        return t
+
+    def simple(self, stmt, st):
+        from ..flow import NORMAL, RAISE, Outcome
+        # the command lookup may fail
+        looks = [x for x in ast.walk(stmt) if isinstance(x, ast.Subscript)
+                 and norm(x.value) == 'self.commands']
+        if looks:
+            have = dict(st.lits)
+            outs = []
+            for v in (True, False):
+                if 'NOTAG' in have and have['NOTAG'] != v:
+                    continue
+                ns = st.copy()
+                ns.lits = st.lits | {('NOTAG', v)}
+                if v:
+                    outs.append(Outcome(RAISE, ns, 'KeyError', stmt))
+                else:
+                    outs.append(Outcome(NORMAL, self.effects(stmt, ns)))
+            return outs
+        return [Outcome(NORMAL, self.effects(stmt, st))]
+
+    def effects(self, stmt, st):
+        if isinstance(stmt, ast.Assign) and len(stmt.targets) == 1 and \
+                isinstance(stmt.targets[0], ast.Name):
+            nm = stmt.targets[0].id
+            if nm in ('args', 'tag', 'name', 'l_'):
+                return st
+            ns = st.copy()
+            env = dict(st.env)
+            env[nm] = self._text(stmt.value, st)
+            ns.env = tuple(sorted(env.items()))
+            return ns
+        return st
+
+    def on_return(self, node, st):
+        if node.value is not None:
+            self.outcomes.append((st.lits, 'return ' + self._text(node.value,
+                                                                  st)))
+        return [], st
+
+    def on_raise(self, node, st):
+        e = node.exc
+        msg = norm(e.args[0]) if isinstance(e, ast.Call) and e.args \
+            else norm(e)
+        self.outcomes.append((st.lits, 'raise ' + msg))
+        return 'ParseError'
+
+
+class _DecisionInterp(Interp):
+    """`return ..., self.commands[name], ...`: the lookup either fails
+    (KeyError, atom NOTAG) or the value is returned."""
+
+    def stmt(self, node, state):
+        from ..flow import RAISE, Outcome
+        if isinstance(node, ast.Return) and node.value is not None and any(
+                isinstance(x, ast.Subscript) and
+                norm(x.value) == 'self.commands'
+                for x in ast.walk(node.value)):
+            have = dict(state.lits)
+            outs = []
+            for v in (True, False):
+                if 'NOTAG' in have and have['NOTAG'] != v:
+                    continue
+                ns = state.copy()
+                ns.lits = state.lits | {('NOTAG', v)}
+                if v:
+                    outs.append(Outcome(RAISE, ns, 'KeyError', node))
+                else:
+                    outs += Interp.stmt(self, node, ns)
+            return outs
+        return Interp.stmt(self, node, state)
+
+
+def _decision_paths(fi):
+    dom = _DecisionDomain(fi)
+    it = _DecisionInterp(dom)
+    # skip the group unpacking prologue: start at the first If / Try
+    body = list(fi.node.body)
+    outs = it.run(fi.node, _PS())
+    esc = [o for o in outs if o.kind == 'raise' and o.exc == 'KeyError']
+    return dom.outcomes, esc
+
+
 def rule_siblings(model):
     r = RuleResult('C07.R2', 'String.parseTag and HTML.parseTag take the '
                    'same decisions (end tag, continuation, else '
-                   'compatibility, command lookup)')
+                   'compatibility, command lookup): for every truth '
+                   'assignment of their tests both produce the same '
+                   'result or error')
     a = model.func('DT_String', 'String.parseTag')
     b = model.func('DT_HTML', 'HTML.parseTag')
-    ra, xa, ta = _decisions(a)
-    rb, xb, tb = _decisions(b)
-    # the EPFS-only insertion form (…, Var, None) has no SGML counterpart
-    ra2 = [x.strip('()') for x in ra if ', Var, ' not in x]
-    rb2 = [x.strip('()') for x in rb if ', Var, ' not in x]
-    r.instance(a.where, ' | '.join(ra2), 'returns')
-    r.instance(b.where, ' | '.join(rb2), 'returns')
-    if sorted(ra2) != sorted(rb2):
-        r.finding(b.where, 'returned tuples', 'the two tag readers return '
-                  f'different results: {sorted(set(ra2) ^ set(rb2))}',
-                  node=b.node, ctx=b)
-    r.instance(a.where, ' | '.join(xa), 'raises')
-    if sorted(xa) != sorted(xb):
-        r.finding(b.where, 'raised errors', 'the two tag readers raise '
-                  f'different errors: {sorted(set(xa) ^ set(xb))}',
-                  node=b.node, ctx=b)
-    # syntax-specific tests: fmt == ']' / '[' / '!'  <->  end
-    def shared(ts):
-        out = []
-        for t in ts:
-            if 'fmt' in t.split() or t.startswith('fmt ') or t == 'end' \
-                    or t.startswith("fmt=="):
-                continue
-            out.append(t)
-        return out
-    sa, sb = shared(ta), shared(tb)
-    r.instance(a.where, ' | '.join(sa)[:150], 'tests')
-    if sorted(sa) != sorted(sb):
-        r.finding(b.where, 'decision tests', 'the two tag readers test '
-                  f'different conditions: {sorted(set(sa) ^ set(sb))}',
-                  node=b.node, ctx=b)
+    pa, ea = _decision_paths(a)
+    pb, eb = _decision_paths(b)
+    r.instance(a.where, f'{len(pa)} decision paths: ' + ' | '.join(
+        sorted({o for _, o in pa}))[:150], 'paths')
+    r.instance(b.where, f'{len(pb)} decision paths: ' + ' | '.join(
+        sorted({o for _, o in pb}))[:150], 'paths')
+    if len(pa) < 4 or len(pb) < 4:
+        raise AnalysisError('C07.R2: tag readers not understood '
+                            f'({len(pa)} / {len(pb)} paths)')
+    # a KeyError escaping the readers is part of the comparison too
+    for lits, esc in ((pa, ea), (pb, eb)):
+        for o in esc:
+            lits.append((o.state.lits, 'raise KeyError'))
+    reported = set()
+    for la, oa in pa:
+        da = dict(la)
+        for lb, ob in pb:
+            db = dict(lb)
+            if any(k in db and db[k] != v for k, v in da.items()):
+                continue            # not jointly satisfiable
+            if oa != ob and (oa, ob) not in reported:
+                reported.add((oa, ob))
+                cond = ' & '.join((k if v else f'not ({k})')
+                                  for k, v in sorted({**da, **db}.items()))
+                r.finding(b.where, f'{oa}  <>  {ob}', 'the two tag readers '
+                          f'decide differently when [{cond}]: the EPFS '
+                          f'reader gives `{oa}`, the SGML reader `{ob}`',
+                          node=b.node, ctx=b)
     # end-tag recognisers
+    ta = [norm(n.test) for n in own_nodes(a.node) if isinstance(n, ast.If)]
+    tb = [norm(n.test) for n in own_nodes(b.node) if isinstance(n, ast.If)]
     if not any("']'" in t and 'fmt' in t for t in ta):
         r.finding(a.where, "fmt == ']'", 'EPFS end tag not recognised by '
                   "the ']' format", node=a.node, ctx=a)
-    if 'end' not in tb:
+    if not any(t in ('end', 'not end') for t in tb):
         r.finding(b.where, 'if end', 'SGML end tag not recognised by the '
                   'end group', node=b.node, ctx=b)
     return r
